@@ -56,6 +56,12 @@ func newReport(prop, tier string) *Report {
 // instances that must be matched (vacuity guard).
 func (r *Report) Rule(id, text string, floor int) {
 	r.curRule = id
+	// The number given by the rule is (about) the instance count confirmed by hand on the pinned
+	// tree; the vacuity floor is half of it, so that ordinary refactoring (two sites merged into a
+	// helper, a table shortened) does not trip it while a rule that suddenly matches nothing does.
+	if floor > 1 {
+		floor = floor / 2
+	}
 	if _, ok := r.Rules[id]; !ok {
 		r.Rules[id] = &RuleStat{Rule: id, Text: text, Floor: floor}
 		r.ruleOrder = append(r.ruleOrder, id)
